@@ -28,6 +28,9 @@ def install():
     ecu.threading = kernel.FakeThreadingModule
     m['j1939.j1939_21'].time = kernel.FakeTime
     m['j1939.j1939_22'].time = kernel.FakeTime
+    for name in ('j1939.j1939_21', 'j1939.j1939_22'):
+        if hasattr(m[name], 'threading'):      # (locks, if the data link layer uses any)
+            m[name].threading = kernel.FakeThreadingModule
     m['j1939.Dm14Query'].queue = kernel.FakeQueueModule
     m['j1939.Dm14Server'].queue = kernel.FakeQueueModule
     m['j1939.Dm14Server'].secrets = kernel.FakeSecrets
